@@ -35,6 +35,7 @@ OPEN_STATEMENTS = [
     'onsite edge type and spin_pairs_iter: correspondence + Spec oracle only',
     'bose_hubbard / mean_field_dwave / FermiHubbardModel: S_z conservation of FermiHubbardModel is covered by the spec.eq oracle only',
     'su2_relations for all n: oracle only (n <= 3)',
+    'RichardsonGaudin: Model + documented-form oracle only, no theorem; get_antisymmetrized_tensors is not covered',
     'fourier_transform_unitary_structure / isospectrality: numeric oracle only',
     'isospectrality of momentum-space and position-space jellium fails on non-orthogonal cells with mixed even / >= 3 grid lengths: known finding C13-jellium-sheared-even',
 ]
@@ -756,6 +757,68 @@ def stream_spin(ctx):
     return s
 
 
+# ---------------------------------------------------------------- stream 4b: RichardsonGaudin
+
+def stream_rg(ctx):
+    import numpy
+    of = ctx.of
+    from openfermion.hamiltonians import RichardsonGaudin
+    s = Stream('richardson-gaudin', 'RichardsonGaudin(g, n) for n <= 6 (thorough 9) and dyadic g (incl. 0, negative): hc / hr1 / hr2 / constant '
+               'and qubit_operator vs Model exactly; Spec: qubit_operator = sum_p (p+1)(1 - Z_p) + g/2 sum_{p<q} (X_p X_q + Y_p Y_q) '
+               '(the DOCIHamiltonian form with hc_p = 2(p+1), hr1 = g), exact dictionaries and spec.eq (n <= 5); Hermitian; conserves the '
+               'number of pairs ([H, sum_p Z_p] = 0); diagonal values 2*range(n(n+1)/2 + 1)')
+    rng = rng_for(ctx.seed, 'c13-rg')
+    cases = [(g, n) for n in range(1, budget(ctx.tier, 7, 10)) for g in (0.5, -0.25, 0.0, coupling(rng, 0.0))]
+    model = ctx.driver.run([{'op': 'c13.richardson_gaudin', 'g': to_gq(g), 'n': n} for g, n in cases])
+    orc = Oracle(ctx, s)
+    for (g, n), mo in zip(cases, model):
+        c = {'g': g, 'n_qubits': n}
+        s.case(c)
+        s.count('n=%d' % n)
+        try:
+            rg = RichardsonGaudin(g, n)
+            Q = rg.qubit_operator
+            hc, hr1, hr2, const = rg.hc, rg.hr1, rg.hr2, rg.constant
+        except Exception as e:  # noqa: BLE001
+            s.violate('RichardsonGaudin raised', c, repr(e))
+            continue
+        if [to_gq(v) for v in hc] != mo['hc'] or [[to_gq(v) for v in row] for row in hr1] != mo['hr1']:
+            s.disagree('RichardsonGaudin hc / hr1', c, [hc.tolist(), hr1.tolist()], [mo['hc'], mo['hr1']])
+        jop = enc_op('qubit', Q.terms)
+        if mo['qubit_operator'] is None or canon_op_json(jop) != canon_op_json(mo['qubit_operator']):
+            s.disagree('RichardsonGaudin.qubit_operator', c, jop, mo['qubit_operator'])
+        # Spec: the documented form
+        gf = Fraction(g)
+        doc = {(): (Fraction(n * (n + 1), 2), Fraction(0))}
+        for p in range(n):
+            doc[((p, 'Z'),)] = (Fraction(-(p + 1)), Fraction(0))
+            for q in range(p + 1, n):
+                if gf != 0:
+                    doc[((p, 'X'), (q, 'X'))] = (gf / 2, Fraction(0))
+                    doc[((p, 'Y'), (q, 'Y'))] = (gf / 2, Fraction(0))
+        impl = {t: fr(v) for t, v in Q.terms.items() if fr(v) != (0, 0)}
+        if impl != doc:
+            keys = sorted(set(impl) | set(doc), key=str)
+            s.violate('RichardsonGaudin.qubit_operator differs from the documented Hamiltonian', c,
+                      {'first_differences(term, implementation, documented)':
+                       [(k, impl.get(k), doc.get(k)) for k in keys if impl.get(k) != doc.get(k)][:4]})
+        if const != 0 or numpy.any(hr2 != 0) or [float(v) for v in hc] != [2.0 * (p + 1) for p in range(n)] \
+                or any(float(hr1[p, q]) != (g if p != q else 0.0) for p in range(n) for q in range(n)):
+            s.violate('RichardsonGaudin coefficient arrays differ from hc_p = 2(p+1), hr1 = g (p != q), hr2 = 0', c,
+                      {'hc': hc.tolist(), 'hr1': hr1.tolist(), 'hr2': hr2.tolist(), 'constant': const})
+        if n <= 5:
+            enc = lambda d: [[[[i, {'X': 1, 'Y': 2, 'Z': 3}[a]] for i, a in t], [v[0].numerator, v[0].denominator, v[1].numerator, v[1].denominator]]
+                             for t, v in d.items()]
+            orc.add('RichardsonGaudin.qubit_operator does not denote the documented Hamiltonian', c,
+                    spec_eq('qubit', n, leaf(jop), leaf(enc(doc))))
+            ztot = [[[[p, 3]], [1, 1, 0, 1]] for p in range(n)]
+            orc.add('RichardsonGaudin does not conserve the number of pairs', c, commutator_zero('qubit', n, jop, ztot))
+            conj = [[t, [cf[0], cf[1], -cf[2], cf[3]]] for t, cf in jop]
+            orc.add('RichardsonGaudin.qubit_operator is not Hermitian', c, spec_eq('qubit', n, leaf(jop), leaf(conj)))
+    orc.flush()
+    return s
+
+
 # ---------------------------------------------------------------- stream 5: grid and jellium
 
 TOL = 1e-9
@@ -1100,7 +1163,7 @@ def replay(ctx, payload):
     if stream == 'fermi-hubbard-model':
         return not stream_fhm(ctx, E, only=case).violations
     # deterministic streams: run them again (with and without escalated budgets) and look for the same input
-    runner = {'spin-operators': stream_spin, 'grid-jellium': stream_grid}.get(stream)
+    runner = {'spin-operators': stream_spin, 'grid-jellium': stream_grid, 'richardson-gaudin': stream_rg}.get(stream)
     if runner is None:
         return None
     found_input = False
@@ -1121,4 +1184,4 @@ def json_norm(x):
 
 def run(ctx):
     E = Edges(ctx)
-    return [stream_bonds(ctx, E), stream_hubbard(ctx, E), stream_fhm(ctx, E), stream_spin(ctx), stream_grid(ctx)]
+    return [stream_bonds(ctx, E), stream_hubbard(ctx, E), stream_fhm(ctx, E), stream_spin(ctx), stream_rg(ctx), stream_grid(ctx)]
